@@ -46,7 +46,9 @@ Record istate := {
   by_denom : omap pid;
   by_erc : omap pid;
   alias : omap Z;
-  meta : omap (list Z)      (* bank metadata of a base denom: its aliases; None = no metadata *)
+  meta : omap (list Z);     (* bank metadata of a base denom: its aliases; None = no metadata *)
+  mstyle : omap Z           (* who wrote that metadata: 1 = RegisterCoin (the message's metadata), 2 = RegisterERC20
+                               (description naming the contract): EqualMetadata tells them apart *)
 }.
 
 Definition inZ (x : Z) (l : list Z) : bool := existsb (Z.eqb x) l.
@@ -56,7 +58,7 @@ Definition del_aliases (al : list Z) (m : omap Z) : omap Z := fold_left (fun m a
 Definition add_pair (p : pair) (s : istate) : istate :=
   let id := (pr_erc p, pr_denom p) in
   {| pairs := (id, Some p) :: pairs s; by_denom := oset (pr_denom p) id (by_denom s);
-     by_erc := oset (pr_erc p) id (by_erc s); alias := alias s; meta := meta s |}.
+     by_erc := oset (pr_erc p) id (by_erc s); alias := alias s; meta := meta s; mstyle := mstyle s |}.
 
 (* the checks RegisterNativeCoin / RegisterNativeERC20 perform on every alias *)
 Definition alias_free (s : istate) (base : Z) (a : Z) : bool :=
@@ -83,14 +85,14 @@ Definition irun (o : iop) (s : istate) : option istate :=
     then None
     else
       match oget base (meta s) with
-      | Some old => if eq_aliases old al
+      | Some old => if eq_aliases old al && (match oget base (mstyle s) with Some 1 => true | _ => false end)
                     then Some (add_pair {| pr_erc := c; pr_denom := base; pr_enabled := true; pr_module_owned := true |}
                                  {| pairs := pairs s; by_denom := by_denom s; by_erc := by_erc s;
-                                    alias := set_aliases base al (alias s); meta := meta s |})
+                                    alias := set_aliases base al (alias s); meta := meta s; mstyle := mstyle s |})
                     else None
       | None => Some (add_pair {| pr_erc := c; pr_denom := base; pr_enabled := true; pr_module_owned := true |}
                         {| pairs := pairs s; by_denom := by_denom s; by_erc := by_erc s;
-                           alias := set_aliases base al (alias s); meta := oset base al (meta s) |})
+                           alias := set_aliases base al (alias s); meta := oset base al (meta s); mstyle := oset base 1 (mstyle s) |})
       end
   | IRegisterERC20 c base al =>
     if ohas c (by_erc s) || ohas base (by_denom s) || ohas base (alias s) || negb (forallb (alias_free s base) al)
@@ -98,7 +100,7 @@ Definition irun (o : iop) (s : istate) : option istate :=
     then None
     else Some (add_pair {| pr_erc := c; pr_denom := base; pr_enabled := true; pr_module_owned := false |}
                  {| pairs := pairs s; by_denom := by_denom s; by_erc := by_erc s;
-                    alias := set_aliases base al (alias s); meta := oset base al (meta s) |})
+                    alias := set_aliases base al (alias s); meta := oset base al (meta s); mstyle := oset base 2 (mstyle s) |})
   | IToggle byc k =>
     match oget k (if byc then by_erc s else by_denom s) with
     | None => None
@@ -107,7 +109,7 @@ Definition irun (o : iop) (s : istate) : option istate :=
       | None => None
       | Some p => Some {| pairs := (id, Some {| pr_erc := pr_erc p; pr_denom := pr_denom p; pr_enabled := negb (pr_enabled p);
                                                  pr_module_owned := pr_module_owned p |}) :: pairs s;
-                          by_denom := by_denom s; by_erc := by_erc s; alias := alias s; meta := meta s |}
+                          by_denom := by_denom s; by_erc := by_erc s; alias := alias s; meta := meta s; mstyle := mstyle s |}
       end
     end
   | IUpdateAlias d a =>
@@ -118,11 +120,11 @@ Definition irun (o : iop) (s : istate) : option istate :=
       | Some old =>
         match oget a (alias s) with
         | None => Some {| pairs := pairs s; by_denom := by_denom s; by_erc := by_erc s;
-                          alias := oset a d (alias s); meta := oset d (old ++ [a]) (meta s) |}
+                          alias := oset a d (alias s); meta := oset d (old ++ [a]) (meta s); mstyle := mstyle s |}
         | Some d' =>
           if d' =? d
           then Some {| pairs := pairs s; by_denom := by_denom s; by_erc := by_erc s;
-                       alias := odel a (alias s); meta := oset d (filter (fun x => negb (x =? a)) old) (meta s) |}
+                       alias := odel a (alias s); meta := oset d (filter (fun x => negb (x =? a)) old) (meta s); mstyle := mstyle s |}
           else None
         end
       end
@@ -133,10 +135,12 @@ Definition irun (o : iop) (s : istate) : option istate :=
       match pget id (pairs s) with
       | None => None
       | Some p =>
+        if negb (pr_enabled p) then None   (* MintingEnabled refuses a disabled pair before the removal is reached *)
+        else
         Some {| pairs := (id, None) :: pairs s; by_denom := odel (pr_denom p) (by_denom s); by_erc := odel (pr_erc p) (by_erc s);
                 alias := match oget (pr_denom p) (meta s) with
                          | Some (a :: al) => del_aliases (a :: al) (alias s) | _ => alias s end;
-                meta := meta s |}
+                meta := meta s; mstyle := mstyle s |}
       end
     end
   end.
